@@ -626,6 +626,10 @@ class Executor(Exec):
                 raise Unsupported("list.count")
             pass
         if isinstance(recv, VMap):
+            if name == "values" and not args:
+                o = VOpaque("dictvalues")
+                o.map = recv
+                return o
             if name == "get":
                 k = args[0].t
                 t = TOpt(TInt())
@@ -862,7 +866,23 @@ class Executor(Exec):
         m = getattr(self, "s_" + type(s).__name__, None)
         if m is None:
             raise Unsupported(f"statement {type(s).__name__} at line {s.lineno}")
-        return m(s, st)
+        try:
+            return m(s, st)
+        except NeedsFork as nf:
+            raise Unsupported(str(nf) + f" (line {getattr(s, 'lineno', 0)})")
+
+    def s_Delete(self, s, st):
+        for t in s.targets:
+            if not (isinstance(t, ast.Subscript) and not isinstance(t.slice, ast.Slice)):
+                raise Unsupported(f"del of something that is not d[key] at line {s.lineno}")
+            loc = self.try_loc(t.value, st)
+            cur = self.read(st, loc) if loc is not None else None
+            if not isinstance(cur, VMap):
+                raise Unsupported(f"del on something that is not a dict at line {s.lineno}")
+            k = self.eval(t.slice, st).t
+            self.oblige(st, f"L{s.lineno}.del_key_present", cur.dom[k], "safety")      # otherwise KeyError
+            self.write(st, loc, VMap(z3.Store(cur.dom, k, z3.BoolVal(False)), cur.val, cur.card - 1))
+        return [(st, "normal")]
 
     def s_Pass(self, s, st):
         return [(st, "normal")]
@@ -924,7 +944,26 @@ class Executor(Exec):
         return [(st, "continue")]
 
     def s_If(self, s, st):
-        c = self.cond(s.test, st)
+        try:
+            c = self.cond(s.test, st)
+        except NeedsFork as nf:
+            # `if helper(...):` / `if not helper(...):` with a helper that returns along several paths: each of its
+            # paths continues with its own truth value
+            neg = isinstance(s.test, ast.UnaryOp) and isinstance(s.test.op, ast.Not)
+            if nf.node is not (s.test.operand if neg else s.test):
+                raise Unsupported(str(nf))
+            out = []
+            for cur, val in nf.conts:
+                t = self.truth(cur, val)
+                t = z3.Not(t) if neg else t
+                a = cur.fork()
+                a.pc.append(t)
+                cur.pc.append(z3.Not(t))
+                if self.feasible(a):
+                    out += self.exec_block(s.body, a)
+                if self.feasible(cur):
+                    out += self.exec_block(s.orelse, cur) if s.orelse else [(cur, "normal")]
+            return out
         cs = z3.simplify(c)
         if z3.is_true(cs):
             return self.exec_block(s.body, st)
@@ -968,10 +1007,18 @@ class Executor(Exec):
                           body=[ast.copy_location(ast.Assign(targets=s.targets, value=s.value.body), s)],
                           orelse=[ast.copy_location(ast.Assign(targets=s.targets, value=s.value.orelse), s)])
             return self.exec_stmt(ast.copy_location(node, s), st)
-        if len(s.targets) == 1 and isinstance(s.targets[0], ast.Name) and isinstance(s.value, (ast.Attribute, ast.Name)) \
-                and not self.spec:
-            # `x = obj.field` where the field holds a list / array / dict: x denotes the same OBJECT (no copy)
-            loc = self.try_loc(s.value, st)
+        if len(s.targets) == 1 and isinstance(s.targets[0], ast.Name) and not self.spec and \
+                (isinstance(s.value, (ast.Attribute, ast.Name))
+                 or (isinstance(s.value, ast.Subscript) and not isinstance(s.value.slice, ast.Slice))):
+            # `x = obj.field` / `x = obj.field[i]` where that holds a list / array / dict: x denotes the same OBJECT
+            loc = self.try_loc(s.value, st) if not isinstance(s.value, ast.Subscript) else self.loc_of_list_element(s.value, st)
+            if loc is not None and loc[0] == "elem":
+                cur = self.read(st, loc)
+                self.write(st, ("var", s.targets[0].id), cur)
+                st.aliasof[s.targets[0].id] = loc
+                key = self.epoch_key(loc)
+                st.aliasep[s.targets[0].id] = (key, st.epochs.get(key, 0))
+                return [(st, "normal")]
             if loc is not None and loc[0] == "vfield":
                 cur = self.read(st, loc)
                 from .values import VFilePtr
@@ -1076,6 +1123,19 @@ class Executor(Exec):
             self.write(st, loc, v, structural=False)
             return [(st, "normal")]
         raise Unsupported("assignment target")
+
+    def loc_of_list_element(self, node, st):
+        """location of  <list field>[i]  when that element is itself a list (a bucket of a table); None otherwise"""
+        try:
+            parent = self.loc_of(node.value, st)
+        except Unsupported:
+            return None
+        if parent[0] != "vfield":
+            return None
+        outer = self.read(st, parent)
+        if not (isinstance(outer, VSeq) and isinstance(outer.et, TSeq)):
+            return None
+        return self.loc_of(node, st)        # (index-in-range obligation included)
 
     def inline_setter(self, st, base, setter, v):
         key = f"{setter.cls}.{setter.name}.setter"
